@@ -1,5 +1,5 @@
 /- L0 facts about the accessors, Display and Default of WeightedMovingAverage (split from Lemmas/WeightedMovingAverage.lean so that a change to one method only invalidates the facts about that method) -/
-import TaRs.Lemmas.WeightedMovingAverage
+import TaRs.Lemmas.Core.WeightedMovingAverage
 set_option linter.unusedSectionVars false
 namespace TaRs.Gen.WeightedMovingAverage
 open TaRs TaRs.Rs
